@@ -97,9 +97,9 @@ def run_history(files, backend, names, fault_at=None, fault=None, srcfault=None)
             argv = [sb.inner(a) if a.startswith("/out") else a for a in INV[nm]]
             out_dirs_before = {d: sb.path(d).is_dir() for d in ("/out1", "/out2", "/results")}
             rc, log, nonce, text = sb.invoke(argv, fault=fault if k == fault_at else None, srcfault=srcfault if k == fault_at else None)
-            cmds = [l for l in log if len(l) >= 4 and l[0].isdigit()]
+            cmds = [l for l in log if len(l) >= 5 and l[0].isdigit()]
             obs.append({
-                "name": nm, "rc": rc, "nonce": nonce, "ncmd": len(cmds), "tools": [l[1] for l in cmds],
+                "name": nm, "rc": rc, "nonce": nonce, "ncmd": len(cmds), "tools": [l[1] for l in cmds], "occ": [f"{l[1]}:{l[3]}" for l in cmds],
                 "fault_hit": any(l[0] == "FAULT" for l in log), "src": [l[0].split(" ", 1)[1] for l in log if l[0].startswith("SRC ")],
                 "dest": {p: sb.read(p) for p in ("/results/ANALYSIS.root", "/out1/ANALYSIS.root", "/out1/result.root", "/out2/ANALYSIS.root", "/out2/x.root")},
                 "isdir": out_dirs_before, "tail": text[-300:],
@@ -195,15 +195,14 @@ def explore(args):
     # single faults
     targets = range(len(hist)) if fault_scope == "any" else [len(hist) - 1]
     for k in targets:
-        n = base[k]["ncmd"]
-        plans = [("cmd", i) for i in range(1, n + 1)] + [("src", s) for s in base[k]["src"]]
+        plans = [("cmd", o) for o in sorted(set(base[k]["occ"]), key=base[k]["occ"].index)] + [("src", s) for s in base[k]["src"]]
         for kind, what in plans:
             obs = run_history(files, backend, hist, fault_at=k, fault=what if kind == "cmd" else None, srcfault=what if kind == "src" else None)
             stats["runs"] += 1
             stats["fault_runs"] += 1
             o = obs[k]
-            outcomes.add((o["name"], o["rc"], kind, what if kind == "src" else o["tools"][-1] if o["tools"] else ""))
-            failed_tool = o["tools"][what - 1] if kind == "cmd" and len(o["tools"]) >= what else what
+            outcomes.add((o["name"], o["rc"], kind, what))
+            failed_tool = what.split(":")[0] if kind == "cmd" else what
             if failed_tool == "dirname":
                 # locating the script's own directory is not one of the steps the property lists (environment setup, build,
                 # analysis job, format conversion, final copy); a failure there is outside the statement
